@@ -25,7 +25,7 @@ import numpy as np
 from vf import foamdict, geom, util
 
 ID = "C08"
-BUDGET = {"quick": 48000, "thorough": 2000000}
+BUDGET = {"quick": 32000, "thorough": 2000000}
 MIN_KEYS = 200
 KINDS = ("angle", "origin", "arc")
 REQUIRED = (
@@ -192,10 +192,8 @@ def gen_case(ctx):
         return case
 
     if kind in ("spline", "polyLine"):
-        while True:
-            theta = rng.uniform(0.05, TWO_PI - 0.05) * rng.choice([-1, 1])
-            case = _base(kind, R, c, n, u, theta)
-            break
+        theta = rng.uniform(0.05, TWO_PI - 0.05) * rng.choice([-1, 1])
+        case = _base(kind, R, c, n, u, theta)
         m = rng.randint(2, 7)  # the library's point arrays need >= 2 points
         style = rng.choice(["on-arc", "wiggle", "overshoot", "straight"])
         p1, p2 = geom.arr(case["p1"]), geom.arr(case["p2"])
